@@ -1072,7 +1072,7 @@ def delete_unused_functions_and_classes(
             name_usages[name.id].add(node)
 
     constructors = collections.defaultdict(set)
-    for node in classdefs:
+    for node in core.walk(root, ast.ClassDef):  # Also of classes that are kept for a preserved member
         for child in filter(parsing.is_magic_method, node.body):
             constructors[node].add(child)
 
